@@ -47,7 +47,7 @@ R4 = [
 STRENGTH = {
  ("C12",1): "a round that ends in a 'polled after completion' panic of an async-fn wrapper counts as C12_NoPollAfterCompletion (first run: caught by C11 only)",
  ("C14",2): "trickling transport (5-64 small partial writes inside one flush / ready / close call) in the random scripts",
- ("C17",2): "NOT strengthened: needs a waker whose destructor releases a guard of the same counter - outside the quantified domain (inert wakers); recorded as a limit",
+ ("C17",2): "re-entrant wakers in LocalWakerSpec.tla (the destructor of the displaced waker calls wake()): C17_WakeDuringRegisterStep, NEG DropOldBeforeStore; the driver registers hand-made Rc wakers",
  ("C18",2): "every other payload of the data runs goes through write_vectored (three slices)",
 }
 def results(files):
